@@ -321,6 +321,8 @@ class Disassembler:
             return self.defb_range(start, end, ((0, DEFAULT_BASE),))
         value = values.pop()
         size, base = sublengths[0]
+        if base == 'm':
+            base = DEFAULT_BASE # A negative DEFS length is meaningless
         items = [self.op_formatter.format_byte(size or end - start, base)]
         if len(sublengths) > 1:
             items.append(self.op_formatter.format_byte(value, sublengths[1][1]))
